@@ -2,4 +2,5 @@ INIT Init
 NEXT Next
 INVARIANT DivisorInv
 INVARIANT OverlapInv
+INVARIANT PrepareInv
 INVARIANT Emit
